@@ -51,6 +51,26 @@ func runCase(c tcase, obs *vh.LineWriter, st *vh.Stats, nonCmd uint64) {
 		st.Count("op." + o.Kind)
 		wf := r.wf(o)
 		if isQuery(o) {
+			absent := !wf && r.absentQuery(o)
+			if absent {
+				// monitor only (the model line stays "unspec"): nothing of a removed
+				// incarnation may be served
+				st.Count("query.below-everything-saved-since-removal")
+				_, got := s.query(o)
+				if got != "[] 0" {
+					msg := fmt.Sprintf("op#%d %s: store answered {%s} but nothing at or above index %d was saved for this replica since its data was removed", k, o.String(), got, o.A)
+					if tainted[o.N] {
+						st.Count("known.tanmux-tainted-answers")
+						if !taintReported {
+							taintReported = true
+							st.Violation(c.ID, "tanmux-removal-not-durable: "+msg)
+						}
+					} else if !violated {
+						violated = true
+						st.Violation(c.ID, fmt.Sprintf("store=%s %s", c.Kind, msg))
+					}
+				}
+			}
 			if !wf && !rawKinds[c.Kind] {
 				// outside the contract the stores are only compared with their
 				// faithful model (tan panics while holding its mutex on high < low)
